@@ -1,7 +1,7 @@
 (* C11 proofs.  Part 2: wsgi._RangeWrapper yields exactly the requested slice, for every chunking of
    the body (empty chunks included) without seek, and for a FileWrapper of any block size with seek. *)
 From Coq Require Import ZArith Lia ZifyBool ZifyN.
-From Wz Require Import lib.Bytes lib.BytesFacts C11.Base C11.Gen C11.Model.
+From Wz Require Import lib.Bytes lib.BytesFacts C11.GenArith C11.Base C11.Gen C11.Model.
 Open Scope nat_scope.
 
 (* ------------------------------------------------------------------ FileWrapper blocks *)
@@ -31,19 +31,51 @@ Proof. intro H. destruct bs; [lia|]. unfold blocks. rewrite blocks_aux_concat. r
 Lemma blocks_nonempty bs d : Forall (fun c => c <> []) (blocks bs d).
 Proof. destruct bs; [constructor|]. apply blocks_aux_nonempty. Qed.
 
+(* ------------------------------------------------------------------ the regenerated arithmetic means what the proofs need.
+   Each lemma unfolds one rw_* function of C11/GenArith.v: an edited comparison, offset or slice bound in
+   wsgi._RangeWrapper changes that function and the lemma stops checking. *)
+Lemma adv_spec rl c : adv rl c = rl + length c.
+Proof. unfold adv, rw_advance. lia. Qed.
+Lemma skip_more_spec rl start : skip_more rl start = (rl <=? start).
+Proof. unfold skip_more, rw_skip_more. destruct (Nat.leb_spec rl start); lia. Qed.
+Lemma is_first_spec rl : is_first rl = (rl =? 0).
+Proof. unfold is_first, rw_is_first. destruct (Nat.eqb_spec rl 0); lia. Qed.
+Lemma range_done_spec rl e : range_done rl e = (e <=? rl).
+Proof. unfold range_done, rw_range_done. cbn [andb]. destruct (Nat.leb_spec e rl); lia. Qed.
+Lemma crl_specs rl : crl_seek rl = rl /\ crl_skip rl = rl /\ crl_plain rl = rl /\ seek_pos rl = rl.
+Proof. unfold crl_seek, crl_skip, crl_plain, seek_pos, rw_crl_seek, rw_crl_skip, rw_crl_plain, rw_seek_pos. lia. Qed.
+Lemma end_of_spec start len : end_of start len = start + len.
+Proof. unfold end_of, rw_end_byte. lia. Qed.
+Lemma initial_rl_spec : initial_rl = 0.
+Proof. reflexivity. Qed.
+Lemma retry_spec c e : rw_retry c e = negb c && negb e.
+Proof. reflexivity. Qed.
+(* chunk[start_byte - read_length:] once the loop has passed start_byte: the last read_length - start_byte bytes *)
+Lemma first_cut_spec (c : bytes) start rl : start < rl -> first_cut c start rl = skipn (length c - (rl - start)) c.
+Proof.
+  intro H. unfold first_cut, py_from, rw_first_index.
+  destruct (Z.ltb_spec (Z.of_nat start - Z.of_nat rl) 0); [|lia]. f_equal. lia.
+Qed.
+(* chunk[: end_byte - contextual_read_length] *)
+Lemma last_cut_spec (c : bytes) e crl : crl <= e -> last_cut c e crl = firstn (e - crl) c.
+Proof.
+  intro H. unfold last_cut, py_to, rw_cut_index.
+  destruct (Z.ltb_spec (Z.of_nat e - Z.of_nat crl) 0); [lia|]. f_equal. lia.
+Qed.
+
 (* ------------------------------------------------------------------ the iteration *)
 Section W.
 Variable seekable : bool.
-Variable seek_it : list bytes.
+Variable seek : nat -> list bytes.
 Variable start_byte end_byte : nat.
 
-Notation next_ := (next_ seekable seek_it start_byte end_byte).
-Notation drive := (drive seekable seek_it start_byte end_byte).
+Notation next_ := (next_ seekable seek start_byte end_byte).
+Notation drive := (drive seekable seek start_byte end_byte).
 
 Definition mk (it : list bytes) (rl : nat) (e : bool) : rw := {| rw_it := it; rw_rl := rl; rw_end := e |}.
 
 (* a call of _next that is not the first iteration *)
-Lemma next_plain it rl : rl <> 0 ->
+Lemma next_plain it rl : rl <> 0 -> rl <= end_byte ->
   next_ (mk it rl false) =
   match it with
   | [] => (None, mk [] rl true)
@@ -52,11 +84,13 @@ Lemma next_plain it rl : rl <> 0 ->
               else (Some c, mk r (rl + length c) false)
   end.
 Proof.
-  intro H. unfold Model.next_. cbn [rw_end rw_rl mk].
+  intros H Hle. unfold Model.next_. cbn [rw_end rw_rl mk]. rewrite is_first_spec.
   destruct (Nat.eqb_spec rl 0) as [E|E]; [contradiction|].
+  destruct (crl_specs rl) as (_ & _ & -> & _).
   unfold next_chunk. cbn [rw_it rw_rl rw_end mk].
   destruct it as [|c r]; [reflexivity|].
-  cbn [rw_rl rw_it rw_end]. destruct (end_byte <=? rl + length c); reflexivity.
+  cbn [rw_rl rw_it rw_end]. rewrite range_done_spec, adv_spec, (last_cut_spec c end_byte rl Hle).
+  destruct (end_byte <=? rl + length c); reflexivity.
 Qed.
 
 Lemma next_ended it rl : next_ (mk it rl true) = (None, mk it rl true).
@@ -64,6 +98,19 @@ Proof. reflexivity. Qed.
 
 Lemma drive_ended f it rl : drive (S f) (mk it rl true) = Ok [].
 Proof. cbn [Model.drive]. rewrite next_ended. reflexivity. Qed.
+
+(* one round of __next__ in terms of the chunk _next produced *)
+Lemma drive_step f s :
+  drive (S f) s =
+  match next_ s with
+  | (None, _) => Ok []
+  | (Some c, s') => if nonempty c then r <- drive f s' ;; Ok (c :: r)
+                    else if rw_end s' then Ok [] else drive f s'
+  end.
+Proof.
+  cbn [Model.drive]. destruct (next_ s) as [[c|] s']; [|reflexivity]. rewrite retry_spec.
+  destruct (nonempty c), (rw_end s'); reflexivity.
+Qed.
 
 Lemma nonempty_length (c : bytes) : nonempty c = true <-> 0 < length c.
 Proof. destruct c; cbn; split; intro; try lia; try discriminate; reflexivity. Qed.
@@ -77,7 +124,7 @@ Lemma drive_rest : forall it rl fuel,
 Proof.
   induction it as [|c r IH]; intros rl fuel Hrl Hlt Hge Hf.
   - cbn [concat length] in Hge. lia.
-  - destruct fuel as [|f]; [cbn in Hf; lia|]. cbn [Model.drive].
+  - destruct fuel as [|f]; [cbn in Hf; lia|]. rewrite drive_step.
     rewrite next_plain by lia.
     cbn [concat] in Hge. rewrite app_length in Hge.
     destruct (Nat.leb_spec end_byte (rl + length c)) as [Hend|Hend].
@@ -118,7 +165,7 @@ Lemma drive_first s c crl it rl f :
               /\ concat out = firstn (end_byte - crl) (c ++ concat it)
               /\ Forall (fun c => c <> []) out.
 Proof.
-  intros Hn Hc Hrl Hlt Hge Hf. cbn [Model.drive]. rewrite Hn.
+  intros Hn Hc Hrl Hlt Hge Hf. rewrite drive_step. rewrite Hn.
   destruct (Nat.leb_spec end_byte rl) as [Hend|Hend].
   - assert (Hne : nonempty (firstn (end_byte - crl) c) = true).
     { apply nonempty_length. rewrite firstn_length. lia. }
@@ -145,12 +192,12 @@ Lemma first_skip_spec : forall it rl ch,
 Proof.
   induction it as [|c r IH]; intros rl ch Hle Hlt.
   - cbn in Hlt. lia.
-  - cbn [first_skip]. destruct (Nat.ltb_spec start_byte rl) as [H|H]; [lia|].
+  - cbn [first_skip]. rewrite skip_more_spec, adv_spec. destruct (Nat.leb_spec rl start_byte) as [H|H]; [|lia].
     cbn [concat] in Hlt. rewrite app_length in Hlt.
     destruct (Nat.ltb_spec start_byte (rl + length c)) as [Hin|Hout].
     + exists [], c, r. cbn [app concat length]. split; [reflexivity|]. split; [lia|].
-      destruct r as [|c2 r2]; cbn [first_skip];
-        destruct (Nat.ltb_spec start_byte (rl + length c)); try lia;
+      destruct r as [|c2 r2]; cbn [first_skip]; rewrite skip_more_spec;
+        destruct (Nat.leb_spec (rl + length c) start_byte); try lia;
         rewrite Nat.add_0_r; reflexivity.
     + destruct (IH (rl + length c) (Some c)) as (pre & c' & post & -> & Hb & Hf); try lia.
       exists (c :: pre), c', post. cbn [app concat]. rewrite app_length.
@@ -160,9 +207,6 @@ Qed.
 End W.
 
 (* ------------------------------------------------------------------ the slice theorem *)
-Lemma py_tail_skipn (c : bytes) n : n <= length c -> py_tail c n = skipn (length c - n) c /\ length (py_tail c n) = n.
-Proof. intro H. unfold py_tail. split; [reflexivity|]. rewrite skipn_length. lia. Qed.
-
 Lemma skipn_app_exact {A} (l1 l2 : list A) n : n <= length l1 -> skipn n (l1 ++ l2) = skipn n l1 ++ l2.
 Proof. intro H. rewrite skipn_app. replace (n - length l1) with 0 by lia. reflexivity. Qed.
 
@@ -172,16 +216,19 @@ Lemma slice_list chunks start len :
               /\ concat out = firstn len (skipn start (concat chunks))
               /\ Forall (fun c => c <> []) out.
 Proof.
-  intros Hle Hlen. unfold range_wrapper.
-  destruct (first_skip_spec start chunks 0 None) as (pre & c & post & Hit & [Hlo Hhi] & Hfs); try lia.
+  intros Hle Hlen. unfold range_wrapper. rewrite end_of_spec, initial_rl_spec.
+  destruct (first_skip_spec (fun _ => []) start chunks 0 None) as (pre & c & post & Hit & [Hlo Hhi] & Hfs); try lia.
   cbn [Nat.add] in Hlo, Hhi, Hfs.
   set (R := length (concat pre) + length c) in *.
   assert (Hcat : concat chunks = concat pre ++ c ++ concat post).
   { rewrite Hit. rewrite concat_app. cbn [concat]. reflexivity. }
-  destruct (py_tail_skipn c (R - start)) as [Hpt Hptl]; [unfold R; lia|].
-  destruct (drive_first false [] start (start + len) (mk chunks 0 false) (py_tail c (R - start)) start post R
+  assert (Hpt : first_cut c start R = skipn (length c - (R - start)) c) by (apply first_cut_spec; unfold R; lia).
+  assert (Hptl : length (first_cut c start R) = R - start) by (rewrite Hpt, skipn_length; unfold R; lia).
+  destruct (drive_first false (fun _ => []) start (start + len) (mk chunks 0 false) (first_cut c start R) start post R
               (S (length chunks))) as (out & Ho & Hc & Hall).
-  - unfold next_. cbn [rw_end rw_rl rw_it mk Nat.eqb]. rewrite Hfs. cbn [option_map rw_rl mk rw_it rw_end].
+  - unfold next_. cbn [rw_end rw_rl rw_it mk]. rewrite is_first_spec. cbn [Nat.eqb]. rewrite Hfs.
+    cbn [option_map rw_rl mk rw_it rw_end]. destruct (crl_specs start) as (_ & -> & _ & _).
+    rewrite range_done_spec, (last_cut_spec _ (start + len) start) by lia.
     destruct (start + len <=? R); reflexivity.
   - lia.
   - lia.
@@ -202,7 +249,8 @@ Lemma slice_file d bs start len :
               /\ Forall (fun c => c <> []) out.
 Proof.
   intros Hle Hlen. destruct bs as [|bs']; [cbn in Hle; lia|].
-  rewrite blocks_concat in Hle by lia. unfold range_wrapper.
+  rewrite blocks_concat in Hle by lia. unfold range_wrapper. rewrite end_of_spec, initial_rl_spec.
+  destruct (crl_specs start) as (Hcs & _ & _ & Hsp). rewrite Hsp.
   set (sk := blocks (S bs') (skipn start d)).
   assert (Hsk : concat sk = skipn start d) by (apply blocks_concat; lia).
   assert (Hne : Forall (fun c => c <> []) sk) by apply blocks_nonempty.
@@ -212,9 +260,11 @@ Proof.
   { inversion Hne as [|? ? Hx _]. destruct c1; [contradiction|cbn; lia]. }
   assert (Hlen_sk : length c1 + length (concat r) = length d - start).
   { apply (f_equal (@length N)) in Hsk. cbn [concat] in Hsk. rewrite app_length, skipn_length in Hsk. exact Hsk. }
-  destruct (drive_first true (c1 :: r) start (start + len) (mk (blocks (S bs') d) 0 false) c1 start r (start + length c1)
-              (S (length (blocks (S bs') d) + length (c1 :: r)))) as (out & Ho & Hc & Hall).
-  - unfold next_. cbn [rw_end rw_rl rw_it mk Nat.eqb next_chunk].
+  destruct (drive_first true (fun p => blocks (S bs') (skipn p d)) start (start + len) (mk (blocks (S bs') d) 0 false) c1 start r
+              (start + length c1) (S (length (blocks (S bs') d) + length (c1 :: r)))) as (out & Ho & Hc & Hall).
+  - unfold next_. cbn [rw_end rw_rl rw_it mk]. rewrite is_first_spec. cbn [Nat.eqb]. rewrite Hsp. cbv zeta.
+    cbn [rw_rl]. rewrite Hcs. fold sk. rewrite Esk. unfold next_chunk. cbn [rw_it rw_rl rw_end].
+    rewrite range_done_spec, adv_spec, (last_cut_spec c1 (start + len) start) by lia.
     destruct (start + len <=? start + length c1); reflexivity.
   - exact Hc1.
   - reflexivity.
@@ -242,13 +292,13 @@ Qed.
    empty chunk, the statement is false; old_drive is the old loop *)
 Section Old.
 Variable seekable : bool.
-Variable seek_it : list bytes.
+Variable seek : nat -> list bytes.
 Variable start_byte end_byte : nat.
 Fixpoint old_drive (fuel : nat) (s : rw) : res (list bytes) :=
   match fuel with
   | O => Raise OutOfFuel
   | S f =>
-    match next_ seekable seek_it start_byte end_byte s with
+    match next_ seekable seek start_byte end_byte s with
     | (None, _) => Ok []
     | (Some c, s') => if nonempty c then r <- old_drive f s' ;; Ok (c :: r) else Ok []
     end
@@ -258,7 +308,7 @@ End Old.
 Lemma old_wrapper_refuted :
   exists chunks start len,
     start + len <= length (concat chunks) /\ 0 < len /\
-    exists out, old_drive false [] start (start + len) (S (S (length chunks))) (mk chunks 0 false) = Ok out
+    exists out, old_drive false (fun _ => []) start (start + len) (S (S (length chunks))) (mk chunks 0 false) = Ok out
                 /\ concat out <> firstn len (skipn start (concat chunks)).
 Proof.
   exists [[97%N; 98%N]; []; [99%N; 100%N]], 0, 4. split; [cbn; lia|]. split; [lia|].
